@@ -1744,7 +1744,7 @@ fn fuzz_custom_type() -> String {
             let mut t = format!("{P}{base}");
             for _ in 0..tape::range("c08:ct_vtower", 2, 9) {
                 // 0: a vector without elements - as the element of an outer vector its size is 0.
-                let dim = ["65535", "65535", "255", "2", "4096", "0", "1"][tape::choose("c08:ct_vdim", 7) as usize];
+                let dim = ["65535", "65535", "65535", "65535", "255", "2", "4096", "0", "1"][tape::choose("c08:ct_vdim", 9) as usize];
                 t = format!("{P}VectorType({t}, {dim})");
             }
             t
